@@ -175,6 +175,82 @@ def cache_coherence(prog: Program, rep: Report) -> None:
         rep.ok(rule, init.qual, "warm block: caches defined after the last length change", "warm_start, release, then forcing.update, tracker, ibm", init.loc())
 
 
+def step_attribute_freshness(prog: Program, rep: Report, rule: str, roles=("tracker",)) -> None:
+    """A per-particle value kept in an attribute of a per-step module is (re)computed in every step
+    before that step reads it. The particle list changes between steps (release, compactify), so a
+    per-particle array surviving from the previous step belongs to other particles."""
+    from ..defassign import selfattr_key, stale_reads
+
+    for role in roles:
+        fi = prog.role_func(role, "update")
+        al = set(statefx.local_state_aliases(prog, fi))
+        env = prog.type_env(fi)
+        # particle-derived local names (flow-insensitive closure)
+        part = set(al)
+        changed = True
+
+        def mentions_particles(e) -> bool:
+            for x in ast.walk(e):
+                if isinstance(x, ast.Name) and x.id in part:
+                    return True
+                if isinstance(x, ast.Attribute) and isinstance(x.value, ast.Name) and env.get(x.value.id) == "state":
+                    return True
+            return False
+
+        while changed:
+            changed = False
+            for st in walk_no_nested(fi.node):
+                if isinstance(st, (ast.Assign, ast.AnnAssign)) and st.value is not None and mentions_particles(st.value):
+                    for t in st.targets if isinstance(st, ast.Assign) else [st.target]:
+                        for el in t.elts if isinstance(t, (ast.Tuple, ast.List)) else [t]:
+                            if isinstance(el, ast.Name) and el.id not in part:
+                                part.add(el.id)
+                                changed = True
+        tracked = set()
+        for st in walk_no_nested(fi.node):
+            if isinstance(st, (ast.Assign, ast.AnnAssign, ast.AugAssign)) and st.value is not None and mentions_particles(st.value):
+                for t in st.targets if isinstance(st, ast.Assign) else [st.target]:
+                    for el in t.elts if isinstance(t, (ast.Tuple, ast.List)) else [t]:
+                        k = selfattr_key(el)
+                        if k:
+                            tracked.add(k)
+        cls_funcs = {f.name: f for f in prog.all_functions() if f.module is fi.module and f.cls == fi.cls}
+
+        def attrs_read(name: str, seen=()) -> set:
+            f = cls_funcs.get(name)
+            if f is None or name in seen:
+                return set()
+            out = set()
+            for x in walk_no_nested(f.node):
+                k = selfattr_key(x)
+                if k and isinstance(x.ctx, ast.Load):
+                    out.add(k)
+                if isinstance(x, ast.Call) and isinstance(x.func, ast.Attribute) and isinstance(x.func.value, ast.Name) and x.func.value.id == "self":
+                    out |= attrs_read(x.func.attr, seen + (name,))
+            return out
+
+        def call_reads(c: ast.Call):
+            if isinstance(c.func, ast.Attribute) and isinstance(c.func.value, ast.Name) and c.func.value.id == "self":
+                return attrs_read(c.func.attr)
+            return ()
+
+        bad = stale_reads(fi.node.body, tracked, selfattr_key, call_reads)
+        for k in sorted(tracked):
+            node = bad.get(k)
+            rep.check(rule, fi.qual, f"per-particle attribute {k} is assigned in the step before the step reads it", node is None, what_bad=f"`{short(node) if node is not None else ''}` can read {k} as left by an earlier step: its rows belong to the particle list of that step (releases and compactification change the list in between)", what_ok="recomputed every step", loc=fi.loc(node) if node is not None else fi.loc())
+        if not tracked:
+            rep.ok(rule, fi.qual, "no per-particle value is kept in an attribute across the step", "none", fi.loc(), nontrivial=False)
+
+
+def loop_carried(lp: ast.For) -> set:
+    """Names assigned in the body of `lp` that can be read in an iteration before that iteration has
+    assigned them (definite-assignment analysis of one iteration starting from the empty set)."""
+    from ..defassign import name_key, stale_reads, stored_keys
+
+    stored = stored_keys(lp.body, name_key) - {x.id for x in ast.walk(lp.target) if isinstance(x, ast.Name)}
+    return set(stale_reads(lp.body, stored, name_key))
+
+
 def kernel_independence(prog: Program, rep: Report) -> None:
     rule = "R14.2"
     n = 0
@@ -200,6 +276,8 @@ def kernel_independence(prog: Program, rep: Report) -> None:
                     cnt += 1
                     if unparse(node.slice) != var:
                         bad.append(node)
+            carried = loop_carried(lp)
+            rep.check(rule, fi.qual, f"loop over {var}: no value carried from one particle's iteration to the next", not carried, what_bad=f"{sorted(carried)} assigned in the loop and read before being assigned in the same iteration: particle {var} sees a value left by another particle", what_ok="every local is (re)assigned before it is read", loc=fi.loc(lp))
             n += 1
             rep.check(rule, fi.qual, f"loop over {var}: {cnt} per-particle subscripts all indexed by {var}", not bad, what_bad=f"{[short(b) for b in bad]}: particle {var} reads or writes another particle's element", what_ok="own element only", loc=fi.loc(lp))
     if n == 0:
@@ -240,17 +318,8 @@ def nondeterminism(prog: Program, rep: Report) -> None:
         for node in walk_no_nested(fi.node):
             if isinstance(node, ast.Call):
                 fn = unparse(node.func)
-                if fn.split(".")[-1] in ("today", "now", "utcnow") or fn in ("time.time", "time.perf_counter", "os.getpid", "uuid.uuid4", "os.urandom"):
+                if _is_clock_call(node):
                     n_clock += 1
-                    # enclosing simple statement
-                    stmt = _enclosing_stmt(fi, node)
-                    ok = False
-                    if isinstance(stmt, ast.Assign):
-                        t = unparse(stmt.targets[0])
-                        ok = "history" in t or t.startswith("wall_clock")
-                    if isinstance(stmt, ast.Expr) and isinstance(stmt.value, ast.Call) and unparse(stmt.value.func).split(".")[0] in ("logger", "logging"):
-                        ok = True
-                    rep.check(rule, fi.qual, short(stmt if stmt is not None else node), ok, what_bad="wall-clock / process-dependent value flows into something other than the history attribute or a log message: repeated runs differ", what_ok="history / log only", loc=fi.loc(node))
                 if isinstance(node.func, ast.Attribute) and node.func.attr in ("glob", "rglob", "iterdir") or fn in ("glob.glob", "os.listdir", "os.scandir"):
                     n_glob += 1
                     stmt = _enclosing_stmt(fi, node)
@@ -292,6 +361,7 @@ def nondeterminism(prog: Program, rep: Report) -> None:
                             if isinstance(x, ast.Call) and isinstance(x.func, ast.Attribute) and x.func.attr in ("append", "extend", "write"):
                                 bad.append(x)
                     rep.check(rule, fi.qual, f"iteration over the set {it}", not bad, what_bad=f"order-dependent effect inside a loop over an unordered set: {[short(b) for b in bad]}", what_ok=f"each iteration only touches entry [{var}]", loc=fi.loc(node))
+    clock_taint(prog, rep, rule)
     if n_clock < 1 or n_glob < 2:
         raise AnalysisError(f"nondeterminism sources: found {n_clock} clock and {n_glob} glob sites, fewer than confirmed by hand")
     # RNG: only the tracker owns one, guarded by the diffusion flags (R11.4)
@@ -309,6 +379,103 @@ def nondeterminism(prog: Program, rep: Report) -> None:
     for adv in (True,):
         it, fr, draws = update_normal_form(prog, dict(advection=adv, diffusion=False, vertdiff=False, vertical_advection=True))
         rep.check(rule, "tracker.Tracker.update", "no random draw with diffusion and vertdiff off", not draws, what_bad=f"{len(draws)} draws", what_ok="deterministic", loc="ladim/tracker.py")
+
+
+CLOCK_FUNCS = ("time.time", "time.perf_counter", "time.monotonic", "time.process_time", "time.time_ns", "os.getpid", "uuid.uuid4", "uuid.uuid1", "os.urandom", "os.times")
+
+
+def _is_clock_call(node: ast.AST) -> bool:
+    if not isinstance(node, ast.Call):
+        return False
+    fn = unparse(node.func)
+    return fn.split(".")[-1] in ("today", "now", "utcnow") or fn in CLOCK_FUNCS
+
+
+def _is_log_call(node: ast.AST) -> bool:
+    return isinstance(node, ast.Call) and unparse(node.func).split(".")[0] in ("logger", "logging", "print", "warnings")
+
+
+def clock_taint(prog: Program, rep: Report, rule: str) -> None:
+    """Wall-clock / process-dependent values may only reach log messages and the history attribute.
+
+    Taint: the clock calls; propagated through assignments to local names (per function) and to
+    `self.<attr>` (by attribute name, program-wide). Every load of a tainted name or attribute must sit
+    (a) inside a log call, (b) on the right-hand side of an assignment that itself only taints a local
+    name / a self attribute / a target named *history*, or (c) in the test of an `if` whose body is
+    log calls only. Anything else (a state or output variable, a return value, an index, a branch that
+    does work) makes two runs differ."""
+    funcs = [fi for fi in prog.all_functions() if fi.module.name not in statefx.SKIP_MODULES and not fi.module.name.startswith("ibms")]
+    tattr: set[str] = set()  # tainted attribute names
+    tloc: dict[str, set[str]] = {fi.qual: set() for fi in funcs}
+
+    def tainted_expr(e: ast.AST, fi) -> bool:
+        for x in ast.walk(e):
+            if _is_clock_call(x):
+                return True
+            if isinstance(x, ast.Name) and isinstance(x.ctx, ast.Load) and x.id in tloc[fi.qual]:
+                return True
+            if isinstance(x, ast.Attribute) and isinstance(x.ctx, ast.Load) and x.attr in tattr:
+                return True
+        return False
+
+    def targets_of(st):
+        if isinstance(st, ast.Assign):
+            return st.targets
+        if isinstance(st, (ast.AugAssign, ast.AnnAssign)):
+            return [st.target]
+        return []
+
+    changed = True
+    while changed:
+        changed = False
+        for fi in funcs:
+            for st in walk_no_nested(fi.node):
+                if isinstance(st, (ast.Assign, ast.AugAssign, ast.AnnAssign)) and st.value is not None and tainted_expr(st.value, fi):
+                    for t in targets_of(st):
+                        for el in (t.elts if isinstance(t, (ast.Tuple, ast.List)) else [t]):
+                            if isinstance(el, ast.Name) and el.id not in tloc[fi.qual]:
+                                tloc[fi.qual].add(el.id)
+                                changed = True
+                            elif isinstance(el, ast.Attribute) and isinstance(el.value, ast.Name) and el.value.id == "self" and "history" not in el.attr and el.attr not in tattr:
+                                tattr.add(el.attr)
+                                changed = True
+    # now judge every tainted use
+    for fi in funcs:
+        parents: dict[int, ast.AST] = {}
+        for n in ast.walk(fi.node):
+            for c in ast.iter_child_nodes(n):
+                parents[id(c)] = n
+
+        def chain(n):
+            out = []
+            while id(n) in parents:
+                n = parents[id(n)]
+                out.append(n)
+            return out
+
+        seen_stmt = set()
+        for x in walk_no_nested(fi.node):
+            is_src = _is_clock_call(x)
+            is_use = (isinstance(x, ast.Name) and isinstance(x.ctx, ast.Load) and x.id in tloc[fi.qual]) or (isinstance(x, ast.Attribute) and isinstance(x.ctx, ast.Load) and x.attr in tattr)
+            if not (is_src or is_use):
+                continue
+            up = chain(x)
+            stmt = next((u for u in up if isinstance(u, ast.stmt)), None)
+            if stmt is None or id(stmt) in seen_stmt:
+                continue
+            ok, why = False, "value used in " + type(stmt).__name__
+            if any(_is_log_call(u) for u in up):
+                ok = True
+            elif isinstance(stmt, (ast.Assign, ast.AugAssign, ast.AnnAssign)):
+                tg = [el for t in targets_of(stmt) for el in (t.elts if isinstance(t, (ast.Tuple, ast.List)) else [t])]
+                ok = all(isinstance(el, ast.Name) or (isinstance(el, ast.Attribute) and isinstance(el.value, ast.Name) and el.value.id == "self") or "history" in unparse(el) for el in tg)
+                why = f"stored into {[unparse(el) for el in tg]}"
+            elif isinstance(stmt, ast.If) and any(x is y for y in ast.walk(stmt.test)):
+                body = stmt.body + stmt.orelse
+                ok = all(isinstance(b, ast.Pass) or (isinstance(b, ast.Expr) and _is_log_call(b.value)) for b in body)
+                why = "decides a branch that does more than logging"
+            seen_stmt.add(id(stmt))
+            rep.check(rule, fi.qual, short(stmt), ok, what_bad=f"wall-clock / process-dependent value flows into something other than the history attribute or a log message ({why}): repeated runs differ", what_ok="history / log only", loc=fi.loc(stmt))
 
 
 def _enclosing_stmt(fi: FuncInfo, node: ast.AST):
@@ -434,6 +601,8 @@ def run(prog: Program, rep: Report, tier: str) -> None:
     rep.rule("R14.2", "per-index independence: kernels index per-particle arrays by the loop variable; no cross-particle reduction on the update path", 8)
     rep.rule("R14.3", "nondeterminism sources enumerated and confined (clock, glob, RNG, set iteration)", 8)
     rep.rule("R14.4", "per-step modules read the clock through step/dt only", 7)
+    rep.rule("R14.6", "per-particle attributes of the tracker are recomputed in every step before they are read", 3)
+    step_attribute_freshness(prog, rep, "R14.6", roles=("tracker", "forcing"))
     rep.rule("R14.5", "the gridded forcing fields evolve independently of the particle list (no control or data dependence)", 5)
     cache_coherence(prog, rep)
     kernel_independence(prog, rep)
@@ -464,5 +633,10 @@ AUDIT = [
     Mut("forcing-skip-when-empty", RO, "        # Read from config?\n        interpolate_velocity_in_time = True", "        if len(X) == 0:\n            return\n        interpolate_velocity_in_time = True", rule="R14.5"),
     Mut("forcing-increment-if-particles", RO, "            if interpolate_velocity_in_time:\n                self.fields[\"u\"] += self.fields[\"dU\"]", "            if interpolate_velocity_in_time and len(X) > 0:\n                self.fields[\"u\"] += self.fields[\"dU\"]", rule="R14.5"),
     Mut("benign-compactify-early", MO, "        self.release.update()\n        self.force.update()\n\n        # self.state.compactify()", "        self.release.update()\n        self.state.compactify()\n        self.force.update()\n\n        # self.state.compactify()", expect="silent"),
+    Mut("clock-seeds-rng", "ladim/main.py", "    logger.info(\"Cleaning up\")\n    model.finish()", "    np.random.seed(wall_clock_start.microsecond)\n    logger.info(\"Cleaning up\")\n    model.finish()", rule="R14.3"),
+    Mut("clock-through-attribute", TR, "        self.rng = np.random.default_rng()\n", "        import time\n        self._t0 = time.time()\n        self.rng = np.random.default_rng(int(self._t0))\n", rule="R14.3"),
+    Mut("clock-decides-work", MO, "        self.release.update()\n        self.force.update()\n\n        # self.state.compactify()", "        import time\n        t = time.time()\n        self.release.update()\n        if t % 2 < 1:\n            self.force.update()\n\n        # self.state.compactify()", rule="R14.3"),
+    Mut("benign-clock-attribute-logged", TR, "        self.rng = np.random.default_rng()\n", "        import time\n        self._t0 = time.perf_counter()\n        logger.debug('tracker set up at %s', self._t0)\n        self.rng = np.random.default_rng()\n", expect="silent"),
+    Mut("metric-cached-across-steps", TR, "        self.dx, self.dy = grid.metric(X, Y)\n", "        if not hasattr(self, 'dx') or len(self.dx) != len(X):\n            self.dx, self.dy = grid.metric(X, Y)\n", rule="R14.6"),
     Mut("benign-log-time", RO, "        # Local depth level and interpolation coefficient", "        logger.debug('time %s', self.modules['time'].time)", expect="silent"),
 ]
